@@ -763,7 +763,9 @@ def normalise_optional_attributes(trees):
                 for m in x.body:
                     if isinstance(m, ast.FunctionDef) and m.name in cands:
                         bad.add(m.name)
-            if isinstance(x, ast.Call) and isinstance(x.func, ast.Name) and x.func.id in ('getattr', 'setattr', 'delattr', 'vars') :
+            if isinstance(x, ast.Call) and isinstance(x.func, ast.Name) and x.func.id in ('getattr', 'setattr', 'delattr', 'vars', 'hasattr'):
+                # (a hasattr probe of an attribute that __init__ sets to None is always true: mixing the two idioms is exactly the
+                # slip this normalisation must not paper over)
                 for a in x.args[1:2]:
                     if isinstance(a, ast.Constant) and a.value in cands:
                         bad.add(a.value)
